@@ -167,7 +167,8 @@ static void flush_stats(C20Stats &st, const Args &a) {
     if (!a.fpfile.empty()) {
         FILE *f = fopen(a.fpfile.c_str(), "ab");
         if (f) {
-            for (uint64_t h : st.cases) fwrite(&h, 8, 1, f);
+            uint64_t tag1 = 1;
+            for (uint64_t h : st.cases) { fwrite(&tag1, 8, 1, f); fwrite(&h, 8, 1, f); }
             fclose(f);
         }
     }
